@@ -112,6 +112,9 @@ func methodShape(m *gensim.MethodMeta) string {
 		s += ",err"
 	}
 	s += fmt.Sprintf(",args:%d", len(m.Extras))
+	if m.Same {
+		s += ",same-type"
+	}
 	return s
 }
 
@@ -345,7 +348,9 @@ func oracleC10(m *gensim.MethodMeta, fr *rtFuncReport, twin *rtFuncReport, st *S
 			vs = append(vs, mk("C10/own-destination", sig, fmt.Sprintf("%s: the %s hook received a pointer that is not the function's own destination", m.Name, which)))
 			return
 		}
-		if c.Src != r.Src0 {
+		// (operand set 2 passes one object as destination and source: what the
+		// postprocess hook sees as its source is then the copied-onto object)
+		if c.Src != r.Src0 && !(fr.Set == 2 && which == "post") {
 			vs = append(vs, mk("C10/own-source", sig, fmt.Sprintf("%s: the %s hook saw a source that differs from the one passed", m.Name, which)))
 			return
 		}
